@@ -1050,13 +1050,21 @@ impl ReCompiler {
         op0: &Operation,
         op1: &Operation,
         case_blind: bool,
+        multi_line: bool,
         reluctant: bool,
     ) -> bool {
         if matches!(op1, Operation::EndProgram(_)) {
             return !reluctant;
         }
-        if matches!(op1, Operation::Bol(_)) || matches!(op1, Operation::Eol(_)) {
-            return true;
+        if matches!(op1, Operation::Bol(_)) {
+            // the repeat may have to give back characters (all of them, or
+            // back to a line start) for '^' to match
+            return false;
+        }
+        if matches!(op1, Operation::Eol(_)) {
+            // in multi-line mode '$' also matches before a newline, so a
+            // repeat that can consume newlines may have to give some back
+            return !multi_line || !op0.get_initial_character_class(case_blind).contains('\n');
         }
         if let Some(repeat_operation) = op1.repeat_operation() {
             if repeat_operation.min() == 0 {
